@@ -19,6 +19,8 @@
 (*              CLR = no entry because of a lane clear.  For a consumer    *)
 (*              that is not a subscriber: just the current value.          *)
 (*     pend     lane clears since c subscribed that c has not received     *)
+(*     pre      the lane was cleared before c subscribed and c has not     *)
+(*              been told of a clear yet (that report may arrive late)     *)
 (*     ok       nothing rejected so far                                    *)
 (*                                                                         *)
 (* What P demands (and no more):                                           *)
@@ -44,7 +46,7 @@ CLR == -1
 PZero(keys) == [k \in keys |-> 0]
 
 PCons(keys, act, ref) ==
-    [active |-> act, rep |-> PZero(keys), adm |-> [k \in keys |-> << ref[k] >>], pend |-> 0, ok |-> TRUE]
+    [active |-> act, rep |-> PZero(keys), adm |-> [k \in keys |-> << ref[k] >>], pend |-> 0, pre |-> FALSE, ok |-> TRUE]
 
 PInit(keys, consumers, active) ==
     [ref    |-> PZero(keys),
@@ -80,7 +82,9 @@ RECURSIVE PLaneRemAll(_, _)
 PLaneRemAll(p, ks) == IF ks = << >> THEN p ELSE PLaneRemAll(PLaneRem(p, Head(ks)), Tail(ks))
 
 \* c subscribes with an empty replica: it is told everything from the current values on
-PLink(p, c) == [p EXCEPT !.cons[c].active = TRUE, !.cons[c].rep = PZero(PKeys(p)), !.cons[c].pend = 0]
+\* (the report of a clear that happened just before may still be on its way to the subscribers: pre)
+PLink(p, c) == [p EXCEPT !.cons[c].active = TRUE, !.cons[c].rep = PZero(PKeys(p)), !.cons[c].pend = 0,
+                         !.cons[c].pre = p.anyClr]
 
 \* ---- a consumer receives one operation ------------------------------------
 PMinOf(S) == CHOOSE x \in S : \A y \in S : x <= y
@@ -96,7 +100,10 @@ PObsKeyed(p, c, k, v) ==
 
 PObsClr(p, c) ==
     LET n == p.cons[c].pend IN
-    IF n = 0
+    IF p.cons[c].pre
+    THEN \* the lane's last clear before c subscribed, reported late: older than everything c may see
+         [p EXCEPT !.cons[c].pre = FALSE, !.cons[c].rep = PZero(PKeys(p))]
+    ELSE IF n = 0
     THEN \* no clear outstanding: tolerated only as a repetition of an earlier lane clear
          [p EXCEPT !.cons[c].ok = @ /\ p.anyClr, !.cons[c].rep = PZero(PKeys(p))]
     ELSE \* the oldest outstanding clear: every key that has not already moved past it moves onto it
